@@ -186,6 +186,8 @@ func (r *FnRun) execInstr(st *State, in ssa.Instruction, b *ssa.BasicBlock) bool
 		st.vals[x] = refVal(p, x.Type())
 	case *ssa.MakeChan:
 		p := r.allocObj(st, "chan")
+		// a new channel is open
+		r.setHeap(st, "B", sx("store", st.heap["B"], sx("fld", p, "904"), "false"))
 		st.vals[x] = refVal(p, x.Type())
 	case *ssa.MakeClosure:
 		p := r.allocObj(st, "clo")
